@@ -94,7 +94,7 @@ pub fn long_payloads(tier: Tier, alpha: &[u8]) -> Vec<Vec<u8>> {
     // shows up somewhere in it), three fillers, two tails
     let sweep_to = match tier {
         Tier::Quick => 1100usize,
-        Tier::Thorough => 4200,
+        Tier::Thorough => 2600,
     };
     let mut lens: Vec<usize> = (10..=sweep_to).collect();
     if tier == Tier::Thorough {
@@ -681,8 +681,8 @@ pub fn run(prop: &str, tier: Tier) -> ! {
     let golden = golden_binding(&ctx);
     let alpha: Vec<u8> = alphabet_variant();
     let (n_short, f): (u32, &(dyn Fn(&[u8], &mut Vec<Viol>, &mut Counts) + Sync)) = match prop {
-        "C07" => (tier.pick(10, 13), &c07_payload),
-        "C01" => (tier.pick(9, 12), &c01_payload),
+        "C07" => (tier.pick(10, 12), &c07_payload),
+        "C01" => (tier.pick(9, 11), &c01_payload),
         "C16" => (tier.pick(8, 10), &c16_payload),
         _ => crate::report::machinery("e2: unknown property"),
     };
